@@ -10,6 +10,7 @@ import (
 	"math/rand/v2"
 	"sort"
 	"strconv"
+	"strings"
 )
 
 const simHeader = "From Coq Require Import ZArith NArith List Bool String.\nFrom V Require Import Lib.ZHex Model.DkgVss Model.DkgQual Model.DkgJoint Corr.C10Corr Corr.DkgSimCorr.\nImport ListNotations.\nOpen Scope string_scope.\n"
@@ -22,7 +23,7 @@ func init() {
 		PropCheck: "c08_prop_bad_ids",
 		Gen:       func(tier string, r *rand.Rand) []Case { return simGen(tier, r, "C08") },
 		Run:       simRunJSON,
-		Rule:      "network simulations (n real instances for the honest participants, scripted Byzantine participants, random admissible delivery orders): plain VSS vector kind x share kind x order; Qual/Joint dealer faults (vector kind x phase, share kind per receiver, answer kind per complainer, unsolicited answers, garbage broadcasts) and complainer faults (spurious / duplicate / late / malformed complaints), > t and exactly t complaints, order hints (share-first, vector-first, answers-first, complaints-first); non-trivial if an event was emitted; distinct by scenario",
+		Rule:      "network simulations (n real instances for the honest participants, scripted Byzantine participants, random admissible delivery orders): plain VSS vector kind x share kind x order; Qual/Joint dealer faults (vector kind x phase, share kind per receiver, answer kind per complainer, unsolicited answers, garbage broadcasts) and complainer faults (spurious / duplicate / late / malformed complaints), > t and exactly t complaints, order hints (share-first, vector-first, answers-first, complaints-first); audit families: the vector defects at the first / a middle / the last position and all at once, one whole point too many / too few, points of E2 with a small-order component (a point of order 13, a G2 point plus it) first and last, the identical vector twice, wrong-then-right and right-twice shares and answers, shares / answers one byte too long, complaint / answer indices n and 255, a bare complaint tag, nil instead of empty messages; a vector whose defect (an order-13 shift of one coefficient) stays consistent with the share of the participant at evaluation point 13; a colluding Byzantine complainer answered in every way, also before its complaint; a different share defect per receiver and a different answer per complainer; polynomials with a root at a participant's point (its correct share is 0); two faulty dealers of different kinds and two dealers with one polynomial (Joint); thresholds t >= n/2 (n = 2..5); n = 254 with indices up to 253 (sampled receivers); plain VSS with an honest dealer and a Byzantine impostor; runner-side: byte-slice arguments unmodified after every call; non-trivial if an event was emitted; distinct by scenario",
 		Shard:     12,
 	})
 }
@@ -35,15 +36,44 @@ func simPolyStrings(a []*big.Int) []string {
 	return s
 }
 
-var simBadShareKinds = map[string]bool{"omit": true, "bad": true, "trunc": true, "zero": true, "ger": true, "badlen": true, "wrongtag": true, "empty": true, "late": true}
-var simBadAnswerKinds = map[string]bool{"omit": true, "bad": true, "zero": true, "ger": true, "badlen": true, "badidx": true}
-var simBadVecKinds = map[string]bool{"omit": true, "badlen": true, "badpoint": true, "badvalue": true, "offcurve": true, "notg2": true}
+var simBadShareKinds = map[string]bool{"omit": true, "bad": true, "trunc": true, "zero": true, "ger": true, "badlen": true, "wrongtag": true, "empty": true, "late": true,
+	"badfirst": true, "long": true, "nil": true}
+var simBadAnswerKinds = map[string]bool{"omit": true, "bad": true, "zero": true, "ger": true, "badlen": true, "badidx": true, "badfirst": true, "long": true, "idx255": true}
+var simBadVecKinds = map[string]bool{"omit": true, "badlen": true, "badpoint": true, "badvalue": true, "offcurve": true, "notg2": true,
+	"badpoint-first": true, "badvalue-last": true, "offcurve-first": true, "notg2-first": true, "offcurve-mid": true, "notg2-mid": true, "badpoint-mid": true,
+	"allbad": true, "longer": true, "shorter": true, "order13": true, "g2plus13": true, "order13-first": true, "g2plus13-first": true, "g2plus13-c1": true}
+var simBadComplaintKinds = map[string]bool{"badlen": true, "badidx": true, "idx255": true, "idxn": true, "empty": true}
 
 // the dealers the property text says every honest participant must disqualify
 func simMustDisq(in *simIn) []int {
 	honest := map[int]bool{}
 	for _, h := range in.Honest {
 		honest[h] = true
+	}
+	// A scripted broadcast of phase ph lands in phase ph unless an EARLIER broadcast of the same sender lands later
+	// (per-sender order is kept).  The only broadcasts a Byzantine sender emits outside its script are its replies to
+	// complaints against it, and a reply may land as late as phase 2.  A deadline-bound message (a complaint) of x is
+	// therefore certainly on time only if nobody ever complains against x.
+	mayReply := func(x *simByz) bool {
+		if in.Proto != "joint" && x.Idx != in.Dealer {
+			return false // not a dealer: nobody's complaint is about it
+		}
+		for _, p := range in.Honest {
+			if simBadShareKinds[x.Shares[strconv.Itoa(p)]] {
+				return true
+			}
+		}
+		for j := range in.Byz {
+			if in.Byz[j].Idx == x.Idx {
+				continue
+			}
+			for _, cm := range in.Byz[j].Complaints {
+				if cm.Against == x.Idx {
+					return true
+				}
+			}
+		}
+		return false
 	}
 	var res []int
 	for k := range in.Byz {
@@ -53,24 +83,23 @@ func simMustDisq(in *simIn) []int {
 		}
 		must := simBadVecKinds[b.Vec] || b.VecPhase >= 1 || len(b.Extra) > 0
 		for _, c := range b.Complaints {
-			if (c.Kind == "badlen" || c.Kind == "badidx") && c.Phase <= 1 {
+			if simBadComplaintKinds[c.Kind] && c.Phase <= 1 && !mayReply(b) {
 				must = true
 			}
 		}
 		for _, u := range b.Unsol {
 			// a malformed answer is fatal whenever it arrives; an unreadable value only when it
 			// is the first answer for that complainer (not decidable from the script alone)
-			if u.Kind == "badlen" || u.Kind == "badidx" {
+			if u.Kind == "badlen" || u.Kind == "badidx" || u.Kind == "long" || u.Kind == "idx255" {
 				must = true
 			}
 		}
+		// everybody whose complaint against b reaches every honest participant before the second timeout:
+		// honest participants that got no usable share, Byzantine ones that say so
 		complainers := map[int]bool{}
 		for _, p := range in.Honest {
 			if simBadShareKinds[b.Shares[strconv.Itoa(p)]] {
 				complainers[p] = true
-				if simBadAnswerKinds[b.Answers[strconv.Itoa(p)]] {
-					must = true
-				}
 				// "wrongly answered": the honest participant p will complain, and the dealer's FIRST
 				// answer for p is wrong.  Answers broadcast in phase 0 precede the scripted reply to
 				// the complaint in the dealer's own broadcast order (which every receiver preserves),
@@ -96,9 +125,29 @@ func simMustDisq(in *simIn) []int {
 				continue
 			}
 			for _, cm := range c.Complaints {
-				if cm.Against == b.Idx && (cm.Kind == "ok" || cm.Kind == "dup") && cm.Phase <= 1 {
+				if cm.Against == b.Idx && (cm.Kind == "ok" || cm.Kind == "dup") && cm.Phase <= 1 && !mayReply(c) {
 					complainers[c.Idx] = true
 				}
+			}
+		}
+		// a complaint that is left unanswered or wrongly answered: whatever the order in which the dealer
+		// emits them, EVERY answer it ever broadcasts for that complainer (the scripted reply and the
+		// unsolicited ones) is wrong or missing, so the first one is
+		for q := range complainers {
+			kinds := []string{b.Answers[strconv.Itoa(q)]}
+			for _, u := range b.Unsol {
+				if u.Complainer == q {
+					kinds = append(kinds, u.Kind)
+				}
+			}
+			allBad := true
+			for _, ak := range kinds {
+				if !simBadAnswerKinds[ak] {
+					allBad = false
+				}
+			}
+			if allBad {
+				must = true
 			}
 		}
 		if len(complainers) > in.T {
@@ -145,6 +194,26 @@ var simVecKinds = []string{"ok", "omit", "badlen", "badpoint", "badvalue", "offc
 var simShareKinds = []string{"ok", "omit", "bad", "zero", "ger", "badlen", "wrongtag", "empty", "dup", "late"}
 var simAnswerKinds = []string{"ok", "omit", "bad", "zero", "ger", "badlen", "badidx", "dup"}
 
+// kinds added by the generator audit: the same defects at other positions of the vector, several at once, a whole
+// point too many / too few, exact duplicates, "wrong first, right second"
+var simVecKinds2 = []string{"same", "badpoint-first", "badvalue-last", "offcurve-first", "notg2-first", "offcurve-mid", "notg2-mid", "badpoint-mid", "allbad", "longer", "shorter",
+	"order13", "g2plus13", "order13-first", "g2plus13-first"}
+var simShareKinds2 = []string{"badfirst", "twice", "long", "nil"}
+var simAnswerKinds2 = []string{"badfirst", "long", "idx255"}
+
+// a polynomial of degree t with P(x) = 0 (x != 0) and non-zero constant and leading coefficients
+func simPolyWithRoot(r *rand.Rand, t int, x int64) []*big.Int {
+	for {
+		a := c10RandPoly(r, t)
+		// a_0 := -(a_1 x + ... + a_t x^t)
+		rest := append([]*big.Int{new(big.Int)}, a[1:]...)
+		a[0] = dkgMod(new(big.Int).Neg(dkgPeval(rest, x)))
+		if a[0].Sign() != 0 {
+			return a
+		}
+	}
+}
+
 // a random subset of size k of 0..n-1 (sorted)
 func simSubset(r *rand.Rand, n, k int) []int {
 	p := r.Perm(n)[:k]
@@ -175,6 +244,61 @@ func simGen(tier string, r *rand.Rand, prop string) []Case {
 					cs = append(cs, mkcase("vss-"+vk+"-"+sk, in))
 				}
 			}
+		}
+	}
+	if prop == "C08" {
+		for _, vk := range simVecKinds2 {
+			for i, sk := range []string{"ok", "bad"} {
+				n := 3 + r.IntN(2)
+				t := 1 + r.IntN(n-1)
+				in := simBase(r, "vss", n, t, 0, []int{0})
+				in.Honest = []int{1 + r.IntN(n-1)}
+				in.Hint = []string{"share-first", "vector-first"}[(i+len(vk))%2]
+				in.Byz[0].Vec = vk
+				in.Byz[0].Shares[strconv.Itoa(in.Honest[0])] = sk
+				in.MustFail = simBadVecKinds[vk] || simBadShareKinds[sk]
+				in.MustKeys = !in.MustFail
+				cs = append(cs, mkcase("vss-"+vk+"-"+sk, in))
+			}
+		}
+		for _, sk := range simShareKinds2 {
+			for _, hint := range []string{"share-first", "vector-first"} {
+				in := simBase(r, "vss", 4, 2, 0, []int{0})
+				in.Honest = []int{1 + r.IntN(3)}
+				in.Hint = hint
+				in.Byz[0].Shares[strconv.Itoa(in.Honest[0])] = sk
+				in.MustFail = simBadShareKinds[sk]
+				in.MustKeys = !in.MustFail
+				cs = append(cs, mkcase("vss-ok-"+sk, in))
+			}
+		}
+		// a vector that is invalid only through a small-order component which vanishes in the public key of the
+		// participant with evaluation point 13: its share matches, the vector must be refused all the same
+		for _, hint := range []string{"share-first", "vector-first"} {
+			n := 13 + r.IntN(3)
+			in := simBase(r, "vss", n, 2+r.IntN(2), 0, []int{0})
+			in.Honest = []int{12}
+			in.Hint = hint
+			in.Byz[0].Vec = "g2plus13-c1"
+			in.MustFail = true
+			cs = append(cs, mkcase("vss-g2plus13-c1", in))
+		}
+		// an honest dealer (a real instance) while a Byzantine non-dealer poses as one: its vector, shares, complaints
+		// and answers are not the dealer's and must change nothing
+		for _, hint := range []string{"share-first", "vector-first", "vector-last", ""} {
+			n := 3 + r.IntN(3)
+			t := 1 + r.IntN(n-1)
+			imp := 1 + r.IntN(n-1)
+			in := simBase(r, "vss", n, t, 0, []int{imp})
+			in.Hint = hint
+			in.Byz[0].Vec = pick(r, []string{"ok", "badlen", "notg2", "dup"})
+			for _, p := range in.Honest {
+				in.Byz[0].Shares[strconv.Itoa(p)] = pick(r, []string{"ok", "bad", "empty", "dup"})
+			}
+			in.Byz[0].Unsol = []simUns{{Phase: 0, Complainer: in.Honest[len(in.Honest)-1], Kind: "ok"}}
+			in.Byz[0].Complaints = []simCmp{{Phase: 0, Against: 0, Kind: "ok"}}
+			in.MustKeys = true
+			cs = append(cs, mkcase("vss-impostor", in))
 		}
 	}
 	if prop == "C08" {
@@ -367,6 +491,7 @@ func simGen(tier string, r *rand.Rand, prop string) []Case {
 			}
 		}
 	}
+	cs = append(cs, simGenAudit(thorough, r)...)
 	// ---- random mixtures ----
 	nrand := 40
 	if thorough {
@@ -411,6 +536,246 @@ func simGen(tier string, r *rand.Rand, prop string) []Case {
 		}
 		in.Hint = pick(r, simHints)
 		cs = append(cs, simFinish("random-"+proto, in))
+	}
+	return cs
+}
+
+// ---- families added by the generator audit (shared by C07 and C08) ----
+func simGenAudit(thorough bool, r *rand.Rand) []Case {
+	var cs []Case
+	protos := []string{"qual", "joint"}
+	reps := 1
+	if thorough {
+		reps = 4
+	}
+	key := strconv.Itoa
+	for rep := 0; rep < reps; rep++ {
+		for _, proto := range protos {
+			// the new vector kinds, in time and late
+			for i, vk := range simVecKinds2 {
+				n := 3 + r.IntN(3)
+				t := 1 + r.IntN((n-1)/2)
+				if strings.HasSuffix(vk, "-mid") || vk == "allbad" {
+					n, t = 5+r.IntN(2), 2
+				}
+				b := r.IntN(n)
+				in := simBase(r, proto, n, t, b, []int{b})
+				in.Byz[0].Vec, in.Byz[0].VecPhase = vk, 0
+				if thorough && i%3 == 0 {
+					in.Byz[0].VecPhase = 1
+				}
+				in.Hint = pick(r, simHints)
+				cs = append(cs, simFinish("vec2-"+proto, in))
+			}
+			// the new share / answer kinds
+			for _, sk := range simShareKinds2 {
+				for _, ak := range []string{"ok", "bad"} {
+					n, t := 3+r.IntN(3), 1
+					b := r.IntN(n)
+					in := simBase(r, proto, n, t, b, []int{b})
+					victim := in.Honest[r.IntN(len(in.Honest))]
+					in.Byz[0].Shares[key(victim)] = sk
+					in.Byz[0].Answers[key(victim)] = ak
+					in.Hint = pick(r, simHints)
+					cs = append(cs, simFinish("share2-"+proto, in))
+				}
+			}
+			for _, ak := range simAnswerKinds2 {
+				for _, sk := range []string{"bad", "omit"} {
+					n, t := 3+r.IntN(3), 1
+					b := r.IntN(n)
+					in := simBase(r, proto, n, t, b, []int{b})
+					victim := in.Honest[r.IntN(len(in.Honest))]
+					in.Byz[0].Shares[key(victim)] = sk
+					in.Byz[0].Answers[key(victim)] = ak
+					in.Hint = pick(r, simHints)
+					cs = append(cs, simFinish("answer2-"+proto, in))
+				}
+			}
+			// malformed complaints of the dealer with the boundary indices, per phase
+			for ph := 0; ph < 3; ph++ {
+				for _, ck := range []string{"idx255", "idxn", "empty"} {
+					n, t := 3+r.IntN(3), 1
+					b := r.IntN(n)
+					in := simBase(r, proto, n, t, b, []int{b})
+					in.Byz[0].Complaints = []simCmp{{Phase: ph, Against: b, Kind: ck}}
+					cs = append(cs, simFinish("garbage2-"+proto, in))
+				}
+				{
+					n, t := 3+r.IntN(3), 1
+					b := r.IntN(n)
+					in := simBase(r, proto, n, t, b, []int{b})
+					in.Byz[0].Extra = []simExtra{{Phase: ph, Kind: "nil"}}
+					cs = append(cs, simFinish("garbage2-"+proto, in))
+				}
+			}
+			// ---- colluding complainer: a Byzantine participant complains against the Byzantine dealer, who answers
+			// it in every way (right, wrong, unreadable, malformed, not at all, twice), also BEFORE the complaint ----
+			for _, ak := range append(append([]string{}, simAnswerKinds...), simAnswerKinds2...) {
+				for _, before := range []bool{false, true} {
+					if before && (ak == "omit" || ak == "dup" || ak == "badfirst") {
+						continue
+					}
+					if !thorough && before && len(ak)%2 == 0 {
+						continue
+					}
+					n := 5 + r.IntN(2)
+					t := 2
+					byz := simSubset(r, n, 2)
+					bi, ci := 0, 1
+					if r.IntN(2) == 0 {
+						bi, ci = 1, 0
+					}
+					in := simBase(r, proto, n, t, byz[bi], byz)
+					b, c := &in.Byz[bi], &in.Byz[ci]
+					c.Complaints = []simCmp{{Phase: r.IntN(2), Against: b.Idx, Kind: pick(r, []string{"ok", "ok", "dup"})}}
+					if before {
+						b.Unsol = []simUns{{Phase: 0, Complainer: c.Idx, Kind: ak}}
+						b.Answers[key(c.Idx)] = "omit"
+						c.Complaints[0].Phase = 1
+					} else {
+						b.Answers[key(c.Idx)] = ak
+					}
+					in.Hint = pick(r, simHints)
+					cs = append(cs, simFinish("collude-"+proto, in))
+				}
+			}
+			// ---- every honest receiver gets a different share defect, every complainer a different answer ----
+			for k := 0; k < 3; k++ {
+				n := 5 + r.IntN(2)
+				t := 2
+				b := r.IntN(n)
+				in := simBase(r, proto, n, t, b, []int{b})
+				sks := []string{"bad", "omit", "empty", "zero", "late", "badfirst", "ok", "dup", "twice"}
+				aks := []string{"ok", "ok", "dup", "ok", "ok"}
+				if k > 0 {
+					aks = []string{"ok", "bad", "omit", "zero", "badfirst", "ok"}
+				}
+				off := r.IntN(len(sks))
+				for i, p := range in.Honest {
+					if k == 2 && i >= t { // at most t complainers
+						break
+					}
+					in.Byz[0].Shares[key(p)] = sks[(off+i)%len(sks)]
+					in.Byz[0].Answers[key(p)] = aks[(off+i)%len(aks)]
+				}
+				in.Hint = pick(r, simHints)
+				cs = append(cs, simFinish("per-receiver-"+proto, in))
+			}
+			// ---- algebraic coincidences: the dealer's polynomial has a root at a participant's evaluation point (its
+			// correct share is 0, which is not a valid share); the constant coefficient's commitment is published
+			// as it is; the same polynomial used by two dealers ----
+			for k := 0; k < 2; k++ {
+				n := 3 + r.IntN(3)
+				t := 1 + r.IntN((n-1)/2)
+				b := r.IntN(n)
+				in := simBase(r, proto, n, t, b, []int{b})
+				victim := in.Honest[r.IntN(len(in.Honest))]
+				in.Byz[0].Poly = simPolyStrings(simPolyWithRoot(r, t, int64(victim+1)))
+				if k == 1 {
+					in.Byz[0].Shares[key(victim)] = "omit"
+				}
+				in.Hint = pick(r, simHints)
+				cs = append(cs, simFinish("zero-share-"+proto, in))
+			}
+		}
+		// ---- the same small-order shift in Feldman-VSS-Qual: only the participant with evaluation point 13 is simulated,
+		// its share matches, nobody complains, and yet the dealer must be disqualified for its vector ----
+		for _, hint := range []string{"share-first", "vector-first"} {
+			in := simBase(r, "qual", 13+r.IntN(3), 2, 0, []int{0})
+			in.Honest = []int{12}
+			in.Hint = hint
+			in.Byz[0].Vec = "g2plus13-c1"
+			cs = append(cs, simFinish("small-order-qual", in))
+		}
+		// ---- Joint-Feldman with two faulty dealers of different kinds at once, and two dealers with the SAME polynomial ----
+		for k := 0; k < 6; k++ {
+			n := 5 + r.IntN(2)
+			t := 2
+			byz := simSubset(r, n, 2)
+			in := simBase(r, "joint", n, t, 0, byz)
+			a, b := &in.Byz[0], &in.Byz[1]
+			switch k % 3 {
+			case 0:
+				a.Vec = pick(r, []string{"omit", "badlen", "notg2", "badpoint-first", "shorter"})
+				v := in.Honest[r.IntN(len(in.Honest))]
+				b.Shares[key(v)] = pick(r, []string{"bad", "omit", "empty"})
+				b.Answers[key(v)] = pick(r, simAnswerKinds)
+			case 1:
+				for _, x := range []*simByz{a, b} {
+					v := in.Honest[r.IntN(len(in.Honest))]
+					x.Shares[key(v)] = pick(r, []string{"bad", "omit", "zero", "late"})
+					x.Answers[key(v)] = pick(r, []string{"ok", "ok", "bad", "omit"})
+				}
+				a.Complaints = []simCmp{{Phase: r.IntN(2), Against: b.Idx, Kind: "ok"}}
+				b.Answers[key(a.Idx)] = pick(r, simAnswerKinds)
+			case 2:
+				b.Poly = append([]string{}, a.Poly...)
+				if r.IntN(2) == 0 {
+					v := in.Honest[r.IntN(len(in.Honest))]
+					a.Shares[key(v)] = "bad"
+				}
+			}
+			in.Hint = pick(r, simHints)
+			cs = append(cs, simFinish("two-dealers-joint", in))
+		}
+		// ---- thresholds at and above n/2 (the constructors accept any 1 <= t < n): the verdict rules do not depend
+		// on n >= 2t+1, and Joint-Feldman's failure rule has its boundary there ----
+		for _, proto := range protos {
+			for _, nt := range [][2]int{{2, 1}, {3, 2}, {4, 2}, {4, 3}, {5, 3}} {
+				n, t := nt[0], nt[1]
+				for k := 0; k < 3; k++ {
+					nb := k
+					if nb > t || nb > n-1 {
+						continue
+					}
+					byz := simSubset(r, n, nb)
+					dealer := r.IntN(n)
+					if nb > 0 {
+						dealer = byz[0]
+					}
+					in := simBase(r, proto, n, t, dealer, byz)
+					for i := range in.Byz {
+						x := &in.Byz[i]
+						switch r.IntN(3) {
+						case 0:
+							x.Vec = pick(r, []string{"omit", "badlen", "notg2"})
+						case 1:
+							v := in.Honest[r.IntN(len(in.Honest))]
+							x.Shares[key(v)] = pick(r, []string{"bad", "omit"})
+							x.Answers[key(v)] = pick(r, []string{"ok", "bad", "omit"})
+						}
+					}
+					if nb == 0 {
+						in.MustKeys = true
+					}
+					in.Hint = pick(r, simHints)
+					cs = append(cs, simFinish("high-t-"+proto, in))
+				}
+			}
+		}
+		// ---- the largest group (n = 254): indices above 127 on the wire and in the evaluation points; only a sample
+		// of the honest participants is simulated (the others stay silent, which is not a fault of the dealer) ----
+		for k := 0; k < 2; k++ {
+			n, t := 254, 1+k
+			dealer := []int{253, 0}[k]
+			in := simBase(r, "qual", n, t, dealer, []int{dealer})
+			victim := []int{200, 253}[k]
+			in.Honest = []int{[]int{0, 1}[k], 128 + r.IntN(60), victim}
+			sort.Ints(in.Honest)
+			in.Byz[0].Shares[key(victim)] = []string{"bad", "omit"}[k]
+			in.Byz[0].Answers[key(victim)] = []string{"ok", "bad"}[k]
+			in.Hint = pick(r, simHints)
+			cs = append(cs, simFinish("big-n-qual", in))
+		}
+		{
+			// honest dealer with index 253, a Byzantine complainer with index 252
+			in := simBase(r, "qual", 254, 2, 253, []int{252})
+			in.Honest = []int{0, 130, 253}
+			in.Byz[0].Complaints = []simCmp{{Phase: 0, Against: 253, Kind: "ok"}}
+			in.MustKeys = true
+			cs = append(cs, simFinish("big-n-qual", in))
+		}
 	}
 	return cs
 }
